@@ -50,7 +50,7 @@ Fixpoint label (es : list (nat * nat)) : nat -> nat :=
   match es with
   | [] => fun x => x
   | (a, b) :: r => let l := label r in let la := l a in let lb := l b in
-                   fun x => if l x =? lb then la else l x
+                   fun x => let lx := l x in if lx =? lb then la else lx
   end.
 
 (* reacheable_nodes = breadth_first_order(connection_matrix, s, ...): positions in the component of s *)
